@@ -12,7 +12,7 @@ use proptest::prelude::*;
 pub struct C13;
 
 pub fn stats_cfg() -> FamCfg {
-    FamCfg { max_s: 1, min_n: 8, max_n: 60, noise_lo: 1e-3, noise_hi: 1e-1, noiseless_16: 0, start_rel: 0.03, allow_f32: true, weights: true, calibrated_weights: false, extra_families: true, wide_weights: true, max_decays: 3 }
+    FamCfg { max_s: 1, min_n: 8, max_n: 60, noise_lo: 1e-3, noise_hi: 1e-1, noiseless_16: 0, start_rel: 0.03, allow_f32: true, weights: true, calibrated_weights: false, extra_families: true, wide_weights: true, max_decays: 3, units: true, long_data: true }
 }
 
 /// fit a single-rhs family instance with statistics
@@ -30,6 +30,9 @@ fn run<T: Sc>(fam: &FamCase) -> Check {
     out.class(format!("(M,P)=({m},{p})"));
     out.class(if fam.f32 { "f32" } else { "f64" });
     out.class(if fam.w.is_some() { "weighted" } else { "unweighted" });
+    for r in fam.regime() {
+        out.class(r);
+    }
     let Some(st) = fo.stats.as_ref() else {
         out.class("no-statistics");
         return Ok(out);
@@ -87,18 +90,60 @@ fn run<T: Sc>(fam: &FamCase) -> Check {
         out.skip("c13.covariance:nonfinite-H");
         return Ok(out);
     }
-    let sv = svd(&h);
+    // column-equilibrated H: the inverse of the Gram matrix and its rounding errors scale with the
+    // columns (entry (i,j) with 1/(|h_i||h_j|)), so the relevant condition number is that of H with
+    // unit columns (van der Sluis) — a model whose parameters carry other units (x in nanoseconds)
+    // has a huge kappa(H) but is as well determined as in natural units
+    let q_ = h.c;
+    let dn: Vec<f64> = (0..q_).map(|j| crate::oracle::linalg::norm2(h.col(j))).collect();
+    if dn.iter().any(|d| !(*d > 0.0)) {
+        out.skip("c13.covariance:zero-column-in-H");
+        return Ok(out);
+    }
+    let heq = Mat::from_fn(h.r, h.c, |i, j| h.at(i, j) / dn[j]);
+    let sv = svd(&heq);
     let kappa = sv.smax() / sv.smin().max(f64::MIN_POSITIVE);
-    // inversion of the Gram matrix: error ~ q u kappa(H)^2; K = 64 (N + M + P) leaves a measured
-    // margin of ~800 for the LU based inverse (observed_maxima.covariance_deviation_over_tolerance)
-    let tol = super::oracles::kfactor(h.r, h.c) * T::unit() * kappa * kappa;
+    let inv_eq = inv_gram_from_svd(&sv);
+    let inv_o = Mat::from_fn(q_, q_, |i, j| inv_eq.at(i, j) / (dn[i] * dn[j]));
+    // Tolerance, relative to the natural scale sqrt(C_ii C_jj) of each entry:
+    //  * K u kappa_eq^2 — inversion of the (equilibrated) Gram matrix;
+    //  * 64 (M+P) u kappa(H) — what a norm-wise stable decomposition of the unscaled H (an SVD with
+    //    absolute accuracy u sigma_max) may lose on the small-scale directions;
+    //  * calibration by a reference pipeline (harness code: Gram matrix in the scalar type under
+    //    test, LU with partial pivoting, inverse): elimination with partial pivoting is not scale
+    //    invariant, and on badly scaled H (seen: a fit that ended at tau = -0.65 with a basis
+    //    column of norm 1e15) it is off by 1e-2 where kappa_eq is only 230. The tolerance widens by
+    //    what that algorithm class delivers on this very matrix, as for the SVD in C01-C03.
+    let kappa_h = {
+        let s = svd(&h);
+        s.smax() / s.smin().max(f64::MIN_POSITIVE)
+    };
+    let ref_dev = {
+        let ht = nalgebra::DMatrix::<T>::from_fn(h.r, h.c, |i, j| T::of(h.at(i, j)));
+        match (ht.transpose() * &ht).lu().try_inverse() {
+            Some(gi) => {
+                let mut worst = 0.0f64;
+                for i in 0..q_ {
+                    for j in 0..q_ {
+                        let nat = (inv_o.at(i, i) * inv_o.at(j, j)).sqrt();
+                        let d = (gi[(i, j)].f() - inv_o.at(i, j)).abs() / nat.max(f64::MIN_POSITIVE);
+                        worst = if d.is_nan() { f64::INFINITY } else { worst.max(d) };
+                    }
+                }
+                worst
+            }
+            None => f64::INFINITY,
+        }
+    };
+    let tol_formula = super::oracles::kfactor(h.r, h.c) * T::unit() * kappa * kappa + 64.0 * q_ as f64 * T::unit() * kappa_h;
+    let tol = tol_formula.max(4.0 * ref_dev);
     out.nontrivial = false;
     if !(tol <= FORWARD_GATE) {
-        out.skip("c13.covariance:kappa(H)^2-gate");
+        out.skip(if tol_formula <= FORWARD_GATE { "c13.covariance:reference-pipeline-inaccurate-on-this-matrix" } else { "c13.covariance:kappa(H)-gate" });
         return Ok(out);
     }
     let sigma2 = st.chi2().f();
-    let cov_o = inv_gram_from_svd(&sv).scale(sigma2);
+    let cov_o = inv_o.scale(sigma2);
     let scale = cov_o.fro();
     let mut worst = 0.0f64;
     for i in 0..q {
@@ -110,7 +155,7 @@ fn run<T: Sc>(fam: &FamCase) -> Check {
             if !(d <= tol * nat.max(1e-300)) {
                 return Err(Fail::new(
                     "c13.covariance",
-                    format!("covariance[{i},{j}] = {:e}, sigma^2 (H^T H)^-1 [{i},{j}] = {:e} (tolerance {:e} relative to sqrt(C_ii C_jj), kappa(H) = {kappa:e}); order must be linear coefficients first, then nonlinear parameters", covf.at(i, j), cov_o.at(i, j), tol),
+                    format!("covariance[{i},{j}] = {:e}, sigma^2 (H^T H)^-1 [{i},{j}] = {:e} (tolerance {:e} relative to sqrt(C_ii C_jj), kappa of the column-equilibrated H = {kappa:e}); order must be linear coefficients first, then nonlinear parameters", covf.at(i, j), cov_o.at(i, j), tol),
                 ));
             }
             // symmetry
@@ -166,6 +211,9 @@ impl Property for C13 {
                 f
             })
             .boxed()
+    }
+    fn pool_of(&self, case: &Self::Case) -> Option<usize> {
+        case.pool_size()
     }
     fn check(&self, case: &FamCase) -> Check {
         if case.f32 {
